@@ -275,11 +275,7 @@ impl Stdfs {
     /// assert_vfs_remove_all!(vfs, &tmpdir);
     /// ```
     pub fn append_line<T: AsRef<Path>, U: AsRef<str>>(path: T, line: U) -> RvResult<()> {
-        let line = line.as_ref().to_string();
-        if !line.is_empty() {
-            Stdfs::append_all(path, line + "\n")?;
-        }
-        Ok(())
+        Stdfs::append_all(path, line.as_ref().to_string() + "\n")
     }
 
     /// Append the given lines to to the target file including newlines
@@ -305,11 +301,8 @@ impl Stdfs {
     /// assert_vfs_remove_all!(vfs, &tmpdir);
     /// ```
     pub fn append_lines<T: AsRef<Path>, U: AsRef<str>>(path: T, lines: &[U]) -> RvResult<()> {
-        let lines = lines.iter().map(|x| x.as_ref()).collect::<Vec<&str>>().join("\n");
-        if !lines.is_empty() {
-            Stdfs::append_all(path, lines + "\n")?;
-        }
-        Ok(())
+        let lines = lines.iter().map(|x| x.as_ref().to_string() + "\n").collect::<String>();
+        Stdfs::append_all(path, lines)
     }
 
     /// Change all file/dir permissions recursivly to `mode`
@@ -1618,10 +1611,7 @@ impl Stdfs {
     /// assert_vfs_remove_all!(vfs, &tmpdir);
     /// ```
     pub fn write_lines<T: AsRef<Path>, U: AsRef<str>>(path: T, lines: &[U]) -> RvResult<()> {
-        let lines = lines.iter().map(|x| x.as_ref()).collect::<Vec<&str>>().join("\n");
-        if !lines.is_empty() {
-            Stdfs::write_all(path, lines + "\n")?;
-        }
-        Ok(())
+        let lines = lines.iter().map(|x| x.as_ref().to_string() + "\n").collect::<String>();
+        Stdfs::write_all(path, lines)
     }
 }
